@@ -6,7 +6,7 @@
    findings/C10-equity-dropped.patch ([!p.Account.IsIE()] instead of [p.Account.IsAL()] in
    transaction.expand); [txn_create] is the pinned code, of which C10_equity_refuted shows that
    it violates the property.  Theorems stated with [txn_create_gen rebook] hold of both.    *)
-From Coq Require Import ZArith QArith List Bool.
+From Coq Require Import ZArith QArith List Bool Permutation.
 From Knut Require Import Model.Str Model.Dec Model.Date Model.Account Model.Ledger.
 From Knut Require Import Spec.DateSpec Spec.AccrualSpec.
 From Knut Require Import Proofs.DecValueAccrual Proofs.AccrualProofs.
@@ -127,8 +127,8 @@ Proof. exact create_targets. Qed.
 Print Assumptions C10_targets_kept.
 
 (* What the correspondence check evaluates on the Go output implies the statements above about
-   that output (clauses 1-3 of accrual_verdict; clauses 4 and 5 -- dates, descriptions, number of
-   parts, targets -- are evaluated but their soundness is not proved here). *)
+   that output: clauses 1-3 here, clause 5 in C10_verdict_sound_targets, clause 4 (order-free
+   form of C10_dates) in C10_verdict_sound_dates. *)
 Theorem C10_verdict_sound : forall s ac ends ts,
   accrual_verdict s ac ends ts = 0 ->
   Forall (fun t => balanced (t_postings t)) ts /\
@@ -136,6 +136,31 @@ Theorem C10_verdict_sound : forall s ac ends ts,
   (~ in_bookings (ac_account ac) (st_bookings s) -> forall c, (booked_txns (ac_account ac) c ts == 0)%Q).
 Proof. exact verdict_sound. Qed.
 Print Assumptions C10_verdict_sound.
+
+Theorem C10_verdict_sound_targets : forall s ac ends ts,
+  accrual_verdict s ac ends ts = 0 -> Forall (fun t => t_targets t = st_targets s) ts.
+Proof. exact verdict_sound_targets. Qed.
+Print Assumptions C10_verdict_sound_targets.
+
+(* clause 4, order-free: every generated transaction is a pair with the accrual account, and the
+   multiset of (date, description, leg account, commodity) is: per side of every booking line,
+   one entry per period end described "<desc> (accrual i/n)" for an income/expense side, one entry
+   at the original date with the original description for any other side *)
+Theorem C10_verdict_sound_dates : forall s ac ends ts,
+  accrual_verdict s ac ends ts = 0 ->
+  exists ks, map (observed_key (ac_account ac)) ts = map Some ks /\
+             Permutation (expected_keys (st_date s) (st_desc s) ends (st_bookings s)) ks.
+Proof. exact verdict_sound_dates. Qed.
+Print Assumptions C10_verdict_sound_dates.
+
+(* The executable statement accepts everything the repaired model returns (so a faithful
+   implementation cannot raise a false alarm, and the statement is satisfiable). *)
+Theorem C10_model_meets_spec : forall s ac ts part,
+  txn_create_fixed s = MOk ts -> st_accrual s = Some ac ->
+  new_partition (mkPeriod (ac_start ac) (ac_end ac)) (ac_interval ac) 0 = POk part ->
+  accrual_verdict s ac (end_dates part) ts = 0.
+Proof. exact model_meets_spec. Qed.
+Print Assumptions C10_model_meets_spec.
 
 (* ---------------------------------------------------------------- the pinned code *)
 
